@@ -20,6 +20,20 @@ PROPS = {
         "explanation": "Lean theorems state the documented effect and totality of every token step for all sequences and parameters; "
                        "the model is tied to src/config/processing.rs and src/config/decoding.rs by running both on the same generated cases.",
     },
+    "C05": {
+        "level": "proof",
+        "rule": "WP ops (one word on a tokenizer without normalization/split/specials): exhaustive words up to length 5 (quick) / 8 "
+                "(thorough) over {a,b} and up to 5/6 over {a,é,語} x generated vocabularies (prefixes ##, @@, é, ▁; entries equal to the "
+                "prefix; max_word_chars 0..6), random words incl. >150 characters and characters missing from the vocabulary x all "
+                "fallback lists up to length 3 x unknown defined or not; shipped bert_base_cased and gte on corpus words. "
+                "Non-trivial: the implementation returned at least one token or an error; distinct = distinct request lines.",
+        "trusted_base": CORE_TB + ["modelled, not verified: bstr char_indices (lossy decoder modelled in Kitoken.Model.Utf8, proved to invert "
+                                   "core Lean's UTF-8 encoder), hashbrown maps as finite maps"],
+        "assumptions": ["WordPiece::new splits the vocabulary by prefix as modelled in Kitoken.Model.Init.mkEncoder (tied by correspondence)"],
+        "explanation": "Lean theorems: the encoder loop equals the recursive greedy longest-match-first specification for every vocabulary, "
+                       "word and limit; failures are atomic; the guards fail the whole word; successful encodings spell the word. "
+                       "Tied to src/encoder/wordpiece.rs by differential runs judged by the greedy specification.",
+    },
     "C08": {
         "level": "proof",
         "rule": "id sequences over the full u32 space (valid vocabulary ids, special ids, u32::MAX, ids just past the vocabulary, "
@@ -42,6 +56,8 @@ def nontrivial(prop, request, impl):
     op = parts[0]
     if op == "PROC":
         return impl != "OK " + parts[2]
+    if op in ("WP", "BPE", "UNI", "ENC"):
+        return impl not in ("OK -",)
     if op == "DEC":
         return parts[3] != "-"
     if op == "DECSTEP":
